@@ -83,8 +83,8 @@ class ZipSeqs(list):
 
 class FunctionSpec:
     def __init__(self, qual, file, params, returns=None, requires=None, ensures=None, modifies=(), raises=None, loops=None,
-                 locals=None, decreases=None, generator=False, defaults=None, cls=None, ghost=None, pure=False, note='', name=None, constructs=None, globals_=None, isinstance_preds=None, opaque_functions=(), numpy_division=False, returns_optional=False, var_keyword=False, lemmas=None):
-        self.lemmas = lemmas or {}; self.returns_optional = returns_optional; self.var_keyword = var_keyword; self.name = name or qual; self.constructs = constructs; self.globals_ = globals_ or {}; self.isinstance_preds = isinstance_preds or {}; self.opaque_functions = set(opaque_functions); self.numpy_division = numpy_division
+                 locals=None, decreases=None, generator=False, defaults=None, cls=None, ghost=None, pure=False, note='', name=None, constructs=None, globals_=None, isinstance_preds=None, opaque_functions=(), numpy_division=False, returns_optional=False, var_keyword=False, lemmas=None, region=None, may_raise=()):
+        self.may_raise = set(may_raise); self.region = region; self.lemmas = lemmas or {}; self.returns_optional = returns_optional; self.var_keyword = var_keyword; self.name = name or qual; self.constructs = constructs; self.globals_ = globals_ or {}; self.isinstance_preds = isinstance_preds or {}; self.opaque_functions = set(opaque_functions); self.numpy_division = numpy_division
         self.qual, self.file, self.params, self.returns = qual, file, params, returns
         self.requires = requires or (lambda o: BoolVal(True)); self.ensures = ensures or (lambda o, n, r: [])
         self.modifies = list(modifies); self.raises = raises or {}; self.loops = loops or {}; self.locals = locals or {}
@@ -250,7 +250,14 @@ class Engine:
             for label, g in spec.lemmas['$entry'](old): self.oblige(st, 'lemma', 'entry.' + label, g)
         if spec.generator:
             st.yields = self.new_root(st, spec.returns, spec.returns.th().Emp, name='ys')
-        outs = self.block(fn.body, st)
+        body = fn.body
+        if spec.region is not None:
+            # REGION contract: only the k-th loop statement of the function (same ordinal as the loop invariants) is verified, from an ASSUMED entry state: the
+            # `params` are the names the region reads (locals of the function and `self`), `requires` is what is assumed about them where the region starts
+            loops = [x for x in ast.walk(fn) if isinstance(x, (ast.For, ast.While))]
+            if spec.region >= len(loops): raise Unsupported('region: the function has no loop %d' % spec.region)
+            body = [loops[spec.region]]
+        outs = self.block(body, st)
         n_normal = 0
         for o in outs:
             if o.kind in ('fall', 'return'):
@@ -275,6 +282,7 @@ class Engine:
                 for label, g in ens:
                     self.oblige(s2, 'post', label, g)
                 for exc, cond in spec.raises.items():
+                    if exc in spec.may_raise: continue          # (may_raise: the contract only says the exception is allowed, not when it must happen)
                     self.oblige(s2, 'raises', exc + '.must', Not(cond(old)))
             elif o.kind == 'raise':
                 if o.exc in spec.raises:
@@ -631,7 +639,13 @@ class Engine:
                     vv = PRef(t.v, d.root, d.path + (('key', kk),)) if isinstance(t.v, (TList, TDict, TObj)) else PV(t.v, t.get(dt, kk))
                     return {'items': PTup([kv, vv]), 'keys': kv, 'values': vv}[mode]
                 return IntVal(0), th.Len(keys), b, [d.root], keys
-        v = self.as_list(self.expr(it, st))
+        v0 = self.expr(it, st)
+        if getattr(self, 'is_opq', None) and self.is_opq(v0):
+            # iterating a library value (Series.unique(), an Index, ...): its elements in iteration order are a function of the value (ASSUMED, like every opaque operation)
+            from .exprs import OpqAsList
+            seq = OpqAsList(v0.term); th = LVAL.th()
+            return IntVal(0), th.Len(seq), (lambda state, k: self.from_term(state, VAL, th.At(seq, k))), [], seq
+        v = self.as_list(v0)
         if isinstance(v, PRef) and isinstance(v.t, TList):
             self.need_not_none(st, v, ast.unparse(it))
             seq = self.term(st, v); th = v.t.th(); et = v.t.elem
